@@ -4,11 +4,12 @@
    `parse (step G) fuel`, for every fuel.
    PARTIAL: `parse_string(parse_all=True) <=> (expr + StringEnd())` is FALSE in general on the code as it is (F-08a, F-08d and
    two more members of the family, all with closed witnesses below); it is proved under the hypotheses first_stable /
-   tail_stable (Proofs/EntryProofs.v), which the witnesses show to be needed.  Overlap mode is covered only by
-   C08_scan_max_matches; scan completeness with ignore expressions needs a handler whose pre-parse does not move backwards. *)
+   tail_stable (Proofs/EntryProofs.v), which the witnesses show to be needed.  Overlap mode: C08_scan_overlap_sound /
+   _strictly_increasing / _complete (Proofs/ScanOverlap.v) and C08_scan_max_matches; scan completeness with ignore
+   expressions (either mode) needs a handler whose pre-parse does not move backwards. *)
 From Coq Require Import List ZArith NArith Bool String.
 From PP Require Import Model.Str Model.Results Model.Prog Model.Core Model.Entry Proofs.ScanProofs Gen.GenEntry.
-From PP Require Import Model.Transform Proofs.TransformProofs Model.EntryExtra Proofs.EntryProofs.
+From PP Require Import Model.Transform Proofs.TransformProofs Model.EntryExtra Proofs.EntryProofs Proofs.ScanOverlap.
 Import ListNotations.
 
 (* the derived entry points are defined in the source as the model defines them (regenerated every run) *)
@@ -289,3 +290,150 @@ Example C08_scan_max_matches_instance : exists res fin',
   drun (parse (step []) 3) (scan_string (ex_word 1) true ex_in3 None false true) = Some (res, SDone) /\ List.length res = 2 /\
   drun (parse (step []) 3) (scan_string (ex_word 1) true ex_in3 (Some 1) false true) = Some (firstn 1 res, fin').
 Proof. exact ex_scan_max_matches. Qed.
+
+(* ================================================================================================================= *)
+(* scan_string(overlap=True)  (Proofs/ScanOverlap.v)                                                                  *)
+(* ================================================================================================================= *)
+(* What the loop does in overlap mode, in the code and in Model/Entry.v: from the cursor `loc` it pre-parses to `preloc` and
+   parses there; on ParseException, or when the match does not get beyond the cursor (nextLoc <= loc: a zero-width match AT
+   the cursor), nothing is reported and the cursor goes to preloc + 1; otherwise (tokens, preloc, nextLoc) is reported and the
+   cursor goes to loc + 1 when the match began exactly at the cursor, but to nextLoc - the END of the reported match - when
+   the pre-parse skipped something in front of it (`nextloc = preparseFn(instring, loc); if nextloc > loc: loc = nextLoc`).
+   So Word("ab") over "ab ab" reports (0,2) (1,2) (3,5) and not (4,5) (C08_scan_overlap_word_instance). *)
+
+(* (1) soundness - both modes, any max_matches, with or without always_skip_whitespace, with or without ignore expressions, no
+   hypothesis: every reported (tokens, start, end) is exactly what a direct `_parse` begun at start (without pre-parse)
+   returns, start is the pre-parse of a cursor position inside the text and end lies strictly beyond that cursor; at most
+   max_matches are reported *)
+Theorem C08_scan_overlap_sound : forall rec root keeptabs input maxm overlap always_skip res fin,
+  drun rec (scan_string root keeptabs input maxm overlap always_skip) = Some (res, fin) ->
+  let s := if keeptabs then input else expandtabs input in
+  Forall (fun m => match m with (t, st, en) =>
+            rec (mkargs root s st true false) = Some (Ok en t) /\
+            exists loc p0, (loc <= List.length s)%nat /\ prep rec root s always_skip loc = Some (Ok st p0) /\ (loc < en)%nat
+          end) res /\
+  (match maxm with Some m => (List.length res <= m)%nat | None => True end).
+Proof. exact scan_overlap_sound. Qed.
+
+(* (2) order - overlap mode, any max_matches, an expression without ignore expressions (as C08_scan_sound_ordered): the starts
+   are STRICTLY increasing (`increasing_from 0 l`: l is strictly increasing; the ends need not be, see the instance: 2, 2, 5).
+   This includes the zero-width case: a zero-width match behind skipped whitespace is reported once, because the cursor then
+   jumps onto it and a match that does not get beyond the cursor is not reported (C08_scan_overlap_zero_width_instance). *)
+Theorem C08_scan_overlap_strictly_increasing : forall rec root keeptabs input maxm always_skip res fin,
+  plainpre root ->
+  drun rec (scan_string root keeptabs input maxm true always_skip) = Some (res, fin) ->
+  increasing_from 0 (starts res) /\
+  forall i j d, (i < j)%nat -> (j < List.length res)%nat -> (nth i (starts res) d < nth j (starts res) d)%nat.
+Proof.
+  exact (fun rec root kt input maxm al res fin Hp H =>
+           conj (scan_overlap_order rec root kt input maxm al res fin Hp H)
+                (scan_overlap_order_nth rec root kt input maxm al res fin Hp H)).
+Qed.
+
+(* with ignore expressions.  PARTIAL: for a handler whose pre-parse never moves backwards and is idempotent, and whose parse
+   never ends before its start *)
+Theorem C08_scan_overlap_strictly_increasing_ignorables_partial : forall rec root (keeptabs : bool) input maxm always_skip res fin,
+  let s := if keeptabs then input else expandtabs input in
+  (forall loc preloc p0, prep rec root s always_skip loc = Some (Ok preloc p0) -> (loc <= preloc)%nat) ->
+  (forall loc preloc p0, prep rec root s always_skip loc = Some (Ok preloc p0) ->
+     exists p1, prep rec root s always_skip preloc = Some (Ok preloc p1)) ->
+  (forall st en tk, direct rec root s st = Some (Ok en tk) -> (st <= en)%nat) ->
+  drun rec (scan_string root keeptabs input maxm true always_skip) = Some (res, fin) ->
+  increasing_from 0 (starts res).
+Proof. exact scan_overlap_order_ign. Qed.
+
+(* (3) completeness - overlap mode, unlimited, an expression without ignore expressions.
+   `ovisit rec root s always_skip fuel loc` is the list of cursor positions the loop visits from loc: loc itself while
+   loc <= len(s), then those from `onext loc`, where (Proofs/ScanOverlap.v, all in terms of the handler's answers to
+   `preparseFn(s, loc)` = prep and `parseFn(s, preloc, callPreParse=False)` = direct)
+     onext loc = loc + 1      after a reported match that began exactly at the cursor,
+                 nextLoc      after a reported match in front of which the pre-parse skipped something,
+                 preloc + 1   after a ParseException or a match with nextLoc <= loc,
+                 stop         on any other exception / a spinning parser;
+   `oreport loc` = Some (tokens, preloc, nextLoc) iff the direct parse at preloc = pre-parse(loc) succeeds with nextLoc > loc,
+   None otherwise (C08_scan_overlap_visit_unfold states both).  The theorem: the reported list is EXACTLY the reports of the
+   visited positions, in order (so a visited position is reported iff the direct parse at its pre-parsed position gets beyond
+   it; between two reported starts, before the first and after the last, every visited position is one where that parse
+   fails or does not get beyond the cursor); the way the scan ends is `ostop`; the visited positions are strictly increasing
+   and inside the text; and the loop counter never runs out (any larger counter gives the same visit and the same ending:
+   no spurious SDiv). *)
+Theorem C08_scan_overlap_complete : forall rec root keeptabs input always_skip res fin,
+  plainpre root ->
+  drun rec (scan_string root keeptabs input None true always_skip) = Some (res, fin) ->
+  let s := if keeptabs then input else expandtabs input in
+  let vis := ovisit rec root s always_skip (List.length s + 2) 0 in
+  res = oreports rec root s always_skip vis /\
+  fin = ostop rec root s always_skip (List.length s + 2) 0 /\
+  increasing_from 0 vis /\ Forall (fun p => (p <= List.length s)%nat) vis /\
+  (forall k, ovisit rec root s always_skip (List.length s + 2 + k) 0 = vis /\
+             ostop rec root s always_skip (List.length s + 2 + k) 0 = ostop rec root s always_skip (List.length s + 2) 0).
+Proof. exact scan_overlap_complete. Qed.
+
+(* with ignore expressions.  PARTIAL: for a handler whose pre-parse never moves backwards (as C08_scan_complete_ignorables_partial) *)
+Theorem C08_scan_overlap_complete_ignorables_partial : forall rec root (keeptabs : bool) input always_skip res fin,
+  let s := if keeptabs then input else expandtabs input in
+  (forall loc preloc p0, prep rec root s always_skip loc = Some (Ok preloc p0) -> (loc <= preloc)%nat) ->
+  drun rec (scan_string root keeptabs input None true always_skip) = Some (res, fin) ->
+  let vis := ovisit rec root s always_skip (List.length s + 2) 0 in
+  res = oreports rec root s always_skip vis /\
+  fin = ostop rec root s always_skip (List.length s + 2) 0 /\
+  increasing_from 0 vis /\ Forall (fun p => (p <= List.length s)%nat) vis /\
+  (forall k, ovisit rec root s always_skip (List.length s + 2 + k) 0 = vis /\
+             ostop rec root s always_skip (List.length s + 2 + k) 0 = ostop rec root s always_skip (List.length s + 2) 0).
+Proof. exact scan_overlap_complete_gen. Qed.
+
+(* with max_matches = n: the first n reports of the same visit *)
+Theorem C08_scan_overlap_complete_max_matches : forall rec root keeptabs input always_skip n res fin,
+  plainpre root ->
+  drun rec (scan_string root keeptabs input None true always_skip) = Some (res, fin) ->
+  let s := if keeptabs then input else expandtabs input in
+  exists fin', drun rec (scan_string root keeptabs input (Some n) true always_skip) =
+    Some (firstn n (oreports rec root s always_skip (ovisit rec root s always_skip (List.length s + 2) 0)), fin').
+Proof. exact scan_overlap_complete_max. Qed.
+
+(* "overlapping matches will be reported" does NOT mean that every position of the text is tried: refuted on the code as it is.
+   Word("ab") over "ab ab": the parse at 4 matches "b" up to 5 - exactly as the reported (1,2) does inside the first word -
+   but 4 is never a cursor position, because the blank skipped in front of the match at 3 made the cursor jump to its end
+   (`loc = nextLoc`).  Confirmed on /repo: [(0,2), (1,2), (3,5)]. *)
+Theorem C08_scan_overlap_every_position_refuted : exists res p m,
+  drun (parse (step []) 3) (scan_string (ex_word 1) true ex_in_abab None true true) = Some (res, SDone) /\
+  (p <= List.length ex_in_abab)%nat /\ oreport (parse (step []) 3) (ex_word 1) ex_in_abab true p = Some m /\ ~ In m res /\
+  ~ In p (ovisit (parse (step []) 3) (ex_word 1) ex_in_abab true (List.length ex_in_abab + 2) 0).
+Proof. exact ex_overlap_not_every_position. Qed.
+
+(* the defining equations of the visit, of the cursor update and of the report, as the theorems above use them *)
+Theorem C08_scan_overlap_visit_unfold : forall rec root s always_skip fuel loc,
+  ovisit rec root s always_skip (S fuel) loc =
+    (if Nat.leb loc (List.length s)
+     then loc :: match onext rec root s always_skip loc with inl l' => ovisit rec root s always_skip fuel l' | inr _ => [] end
+     else []) /\
+  (forall m, oreport rec root s always_skip loc = Some m <->
+     exists preloc p0 nl tk, prep rec root s always_skip loc = Some (Ok preloc p0) /\
+       direct rec root s preloc = Some (Ok nl tk) /\ (loc < nl)%nat /\ m = (tk, preloc, nl)) /\
+  (forall preloc p0 nl tk, prep rec root s always_skip loc = Some (Ok preloc p0) -> direct rec root s preloc = Some (Ok nl tk) ->
+     onext rec root s always_skip loc =
+       inl (if Nat.ltb loc nl then (if Nat.ltb loc preloc then nl else S loc) else S preloc)) /\
+  (forall preloc p0 x, prep rec root s always_skip loc = Some (Ok preloc p0) -> direct rec root s preloc = Some (Err x) ->
+     onext rec root s always_skip loc = if is_pe (xk x) then inl (S preloc) else inr (SErr x)).
+Proof. exact ovisit_unfold. Qed.
+
+(* Word("ab") over "ab ab" with overlap=True (the real scan_string gives the same: tools/props/c08.py overlap_fixed) *)
+Example C08_scan_overlap_word_instance : exists res,
+  drun (parse (step []) 3) (scan_string (ex_word 1) true ex_in_abab None true true) = Some (res, SDone) /\
+  spans res = [(0, 2); (1, 2); (3, 5)] /\
+  ovisit (parse (step []) 3) (ex_word 1) ex_in_abab true (List.length ex_in_abab + 2) 0 = [0; 1; 2; 5] /\
+  Forall (reported_ok (parse (step []) 3) (ex_word 1) ex_in_abab true) res /\
+  increasing_from 0 (starts res) /\
+  res = oreports (parse (step []) 3) (ex_word 1) ex_in_abab true
+          (ovisit (parse (step []) 3) (ex_word 1) ex_in_abab true (List.length ex_in_abab + 2) 0).
+Proof. exact ex_overlap_word. Qed.
+
+(* Empty() over "  a " with overlap=True: the zero-width matches (2,2) and (4,4), each once *)
+Example C08_scan_overlap_zero_width_instance : exists res,
+  drun (parse (step []) 3) (scan_string (ex_empty 1) true ex_in_sp None true true) = Some (res, SDone) /\
+  spans res = [(2, 2); (4, 4)] /\
+  ovisit (parse (step []) 3) (ex_empty 1) ex_in_sp true (List.length ex_in_sp + 2) 0 = [0; 2; 3; 4] /\
+  increasing_from 0 (starts res) /\
+  res = oreports (parse (step []) 3) (ex_empty 1) ex_in_sp true
+          (ovisit (parse (step []) 3) (ex_empty 1) ex_in_sp true (List.length ex_in_sp + 2) 0).
+Proof. exact ex_overlap_empty. Qed.
